@@ -2,7 +2,8 @@
 # Must-fail self-test of the machinery: every kept seeded change (seeded/<id>-N/patch.diff) is applied to a scratch
 # worktree of /repo's HEAD (outside /repo and /verif, removed afterwards) and the check of its property is run against
 # that worktree. The check must exit 1 with a VIOLATION line for that property. A seed that is no longer reported is
-# a hole in the contracts or in the engine.  usage: tools/selftest.sh [seed-name ...]   (default: all seeds)
+# a hole in the contracts or in the engine. Seeds whose meta.json says "expect": "clean" are harmless changes: the
+# check must exit 0 on them.  usage: tools/selftest.sh [seed-name ...]   (default: all seeds)
 cd "$(dirname "$0")/.." || exit 2
 export GOFLAGS=-mod=mod GOPROXY=off GOSUMDB=off GOTOOLCHAIN=local
 base="${VERIF_SCRATCH:-$HOME/.cache/verif-scratch}/selftest$$"
@@ -22,7 +23,11 @@ for s in $seeds; do
     out=$(./bin/govc check -prop "$prop" -repo "$wt" -no-evidence 2>&1); st=$?
     nv=$(echo "$out" | grep -c "^VIOLATION property=$prop ")
     obs=$(echo "$out" | grep "^VIOLATION" | sed 's/.*obligation=//' | tr '\n' ' ' | cut -c1-220)
-    if [ "$st" = 1 ] && [ "$nv" -gt 0 ]; then echo "$s: detected ($prop exit=1) $obs"; else echo "$s: MISSED ($prop exit=$st)"; echo "$out" | tail -3; rc=1; fi
+    expect=$(python3 -c "import json;print(json.load(open('seeded/$s/meta.json')).get('expect','violation'))")
+    if [ "$expect" = clean ]; then
+      # a change under which the property still holds: the check must stay quiet
+      if [ "$st" = 0 ] && [ "$nv" = 0 ]; then echo "$s: quiet, as it must be ($prop holds with this change)"; else echo "$s: FALSE ALARM ($prop exit=$st) $obs"; rc=1; fi
+    elif [ "$st" = 1 ] && [ "$nv" -gt 0 ]; then echo "$s: detected ($prop exit=1) $obs"; else echo "$s: MISSED ($prop exit=$st)"; echo "$out" | tail -3; rc=1; fi
   fi
   git -C /repo worktree remove --force "$wt" >/dev/null 2>&1
 done
